@@ -1,5 +1,6 @@
 import BevySyncModel.Proofs.Promo
 import BevySyncModel.Proofs.Chain
+import BevySyncModel.Proofs.World
 import BevySyncModel.Proofs.Snap
 import BevySyncModel.Generated.Promo
 /-! # C07 — host promotion hands the session over intact
@@ -87,6 +88,28 @@ example :
     Chain.RestAt true (Chain.run Chain.rest0 (Chain.handoverActs false ++ Chain.handoverActs true ++ Chain.handoverActs false)) ∧
     Chain.requests Chain.rest0 (Chain.handoverActs false ++ Chain.handoverActs true ++ Chain.handoverActs false) = 3 :=
   Chain.three_handovers
+
+/-- **C07, the session's content across a hand-over.** When the hand-over is complete the former host has asked for the
+snapshot exactly once (`C07_one_client_handover`, `C07_chain_handover`): it is a returning client that holds the very entities
+the new host holds (the session was settled when the promotion was requested — what an application does *during* the
+hand-over is finding D18).  The whole-world model then gives: after the new host's snapshot the former host still holds every
+synchronized entity exactly once, under its uuid — none lost, none duplicated — with every value and parent link the new host
+lists; this holds after every hand-over of a chain. -/
+theorem C07_former_host_keeps_world (w : WorldSnap.World) (hw : WorldSnap.WF w) (c0 : WorldSnap.Client)
+    (hn : c0.ents.Nodup) (hsame : ∀ u, u ∈ c0.ents ↔ u ∈ WorldSnap.uuids w) :
+    let c := WorldSnap.applyAll c0 (WorldSnap.snapshot w)
+    c.ents = c0.ents ∧ c.ents.Nodup ∧ (∀ u, u ∈ c.ents ↔ u ∈ WorldSnap.uuids w) ∧
+    (∀ e ∈ WorldSnap.allEnts w, ∀ t v, e.vals.lookup t = some v → WorldSnap.getComp c e.uuid t = some v) ∧
+    (∀ e ∈ WorldSnap.allEnts w, ∀ p, e.parent = some p → WorldSnap.getParent c e.uuid = some p) :=
+  WorldSnap.snapshot_on_agreeing w hw c0 hn hsame
+
+/-- non-vacuity: the former host holds entities 11 and 12 (12 under 11) with an old value of 11; after the new host's snapshot it
+holds the same two, once each, the new value and the link -/
+example :
+    let w : WorldSnap.World := [{ types := [7], ents := [{ uuid := 11, vals := [(7, 71)], parent := none }, { uuid := 12, vals := [], parent := some 11 }] }]
+    let c0 : WorldSnap.Client := { ents := [12, 11], comps := [(11, 7, 70)], parents := [(12, 11)] }
+    let c := WorldSnap.applyAll c0 (WorldSnap.snapshot w)
+    c.ents = [12, 11] ∧ WorldSnap.getComp c 11 7 = some 71 ∧ WorldSnap.getParent c 12 = some 11 := by decide
 
 /-- **D7 (recorded finding), kernel-checked.** With a second client that leaves the former host only after the former
 host's own connection to the new host is verified, the single flag has already been spent: the former host never
